@@ -31,7 +31,7 @@ def strip_comments(src):
 
 def fn_body(src, anchor, span=4000):
     """text following the first match of anchor (a regex), up to span chars"""
-    m = re.search(anchor, src)
+    m = re.search(anchor, src, flags=re.M)
     if not m:
         raise GenError("anchor not found: %s" % anchor)
     return src[m.start(): m.start() + span]
@@ -47,9 +47,12 @@ def intlit(s):
     return int(s)
 
 
-def const_expr(s):
-    """evaluate a tiny constant expression: ints, << * + - ( )"""
+def const_expr(s, env=None):
+    """evaluate a tiny constant expression: ints, << * + - ( ), and names bound in env"""
     s = s.strip()
+    for name, val in sorted((env or {}).items(), key=lambda kv: -len(kv[0])):
+        s = re.sub(r"\b%s\b" % re.escape(name), "(%d)" % val, s)
+    s = re.sub(r"\bas u128\b|\bas u64\b|\bas usize\b", "", s)
     if not re.fullmatch(r"[0-9a-fA-Fxb_ \t<*+\-()/usize]+", s):
         raise GenError("unsupported constant expression: %r" % s)
     toks = re.findall(r"0x[0-9a-fA-F_]+?(?:_?(?:usize|u128|u64|u32|u16|u8))?(?![0-9a-fA-F_])|0b[01_]+(?:usize|u128|u64|u32|u16|u8)?|[0-9][0-9_]*(?:usize|u128|u64|u32|u16|u8)?|<<|[*+\-()/]", s)
@@ -60,8 +63,8 @@ def const_expr(s):
 SITES = []  # (name, file, anchor regex, value regex (1 group), doc)
 
 
-def site(name, file, anchor, value, doc=""):
-    SITES.append((name, file, anchor, value, doc))
+def site(name, file, anchor, value, doc="", env=None):
+    SITES.append((name, file, anchor, value, doc, env or {}))
 
 
 # ---- qvector/mod.rs ----------------------------------------------------------------
@@ -113,19 +116,60 @@ site("SIW_PLACE_MUL", UT, r"pub fn select_in_word\(word: u64, k: u64\)", r"let p
 site("SIW_NOTFOUND", UT, r"pub fn select_in_word\(word: u64, k: u64\)", r"if place == (\w+) \{")
 site("SIW_BYTE_MASK", UT, r"pub fn select_in_word\(word: u64, k: u64\)", r"let byte_rank = k - \(\(\(byte_sums << 8\) >> place\) & (\w+)\);")
 
+# ---- bitvector/mod.rs -----------------------------------------------------------------
+BV = "src/bitvector/mod.rs"
+site("BV_LINE_BITS", BV, r"fn set_symbol\(&mut self, symbol: u64, i: usize\)", r"assert!\(i < (\w+)\);")
+site("BV_PUSH_MOD", BV, r"pub fn push\(&mut self, bit: bool\)", r"let pos_in_line = self\.n_bits % (\w+);")
+site("BV_EXT_ROUND", BV, r"pub fn extend_with_zeros\(&mut self, n: usize\)", r"let new_size = \(self\.n_bits \+ (\w+)\) / \w+;")
+site("BV_EXT_DIV", BV, r"pub fn extend_with_zeros\(&mut self, n: usize\)", r"let new_size = \(self\.n_bits \+ \w+\) / (\w+);")
+site("BV_SET_SHIFT", BV, r"pub fn set\(&mut self, index: usize, bit: bool\)", r"let dl = index >> (\w+);")
+site("BV_SET_MASK", BV, r"pub fn set\(&mut self, index: usize, bit: bool\)", r"let pos_in_dl = index & (\w+);")
+site("BV_SETBITS_SHIFT", BV, r"pub fn set_bits\(&mut self, index: usize, len: usize, bits: u64\)", r"self\.data\[\(index \+ i\) >> (\w+)\]")
+site("BV_SETBITS_MOD", BV, r"pub fn set_bits\(&mut self, index: usize, len: usize, bits: u64\)", r"\(index \+ i\) % (\w+)\)")
+
+# ---- bitvector/rs_narrow.rs -----------------------------------------------------------
+RN = "src/bitvector/rs_narrow.rs"
+site("RSN_BLOCK_SIZE", RN, r"^const BLOCK_SIZE", r"const BLOCK_SIZE: usize = (\w+);")
+site("RSN_ONES_PER_HINT", RN, r"^const SELECT_ONES_PER_HINT", r"const SELECT_ONES_PER_HINT: usize = ([^;]*);", env={"BLOCK_SIZE": "RSN_BLOCK_SIZE"})
+site("RSN_ZEROS_PER_HINT", RN, r"^const SELECT_ZEROS_PER_HINT", r"const SELECT_ZEROS_PER_HINT: usize = ([^;]*);", env={"SELECT_ONES_PER_HINT": "RSN_ONES_PER_HINT"})
+site("RSN_SUB_BITS", RN, r"pub fn new\(bv: BitVector\) -> Self", r"if shift >= 1 \{\s*subranks <<= (\w+);")
+site("RSN_SUB_BITS_TAIL", RN, r"let left = BLOCK_SIZE - \(bv\.data\.len\(\) % BLOCK_SIZE\);", r"subranks <<= (\w+);")
+site("RSN_SBR_BITS", RN, r"fn sub_block_rank\(&self, sub_block: usize\)", r">> \(\(7 - left\) \* (\w+)\)")
+site("RSN_SBR_MASK", RN, r"fn sub_block_rank\(&self, sub_block: usize\)", r"\(\(7 - left\) \* \w+\) & (\w+);")
+# ---- bitvector/rs_wide.rs -------------------------------------------------------------
+RW = "src/bitvector/rs_wide.rs"
+site("RSW_BLOCK_WORDS", RW, r"^const BLOCK_SIZE", r"const BLOCK_SIZE: usize = (\w+);")
+site("RSW_SUPERBLOCK_WORDS", RW, r"^const SUPERBLOCK_SIZE", r"const SUPERBLOCK_SIZE: usize = ([^;]*);", env={"BLOCK_SIZE": "RSW_BLOCK_WORDS"})
+site("RSW_ONES_PER_HINT", RW, r"^const SELECT_ONES_PER_HINT", r"const SELECT_ONES_PER_HINT: usize = ([^;]*);", env={"SUPERBLOCK_SIZE": "RSW_SUPERBLOCK_WORDS"})
+site("RSW_ZEROS_PER_HINT", RW, r"^const SELECT_ZEROS_PER_HINT", r"const SELECT_ZEROS_PER_HINT: usize = ([^;]*);", env={"SELECT_ONES_PER_HINT": "RSW_ONES_PER_HINT"})
+site("RSW_BLK_BITS", RW, r"pub fn new\(bv: BitVector\) -> Self", r"\} else \{\s*cur_metadata <<= (\w+);")
+site("RSW_BLK_BITS_TAIL", RW, r"if left != 0 \{", r"cur_metadata <<= (\w+);")
+site("RSW_SB_SHIFT", RW, r"cur_metadata \|= total_rank;\s*cur_metadata <<=", r"cur_metadata <<= ([^;]*);")
+site("RSW_SB_SHIFT_RD", RW, r"fn superblock_rank\(&self, block: usize\)", r"\[block\] >> \(([^)]*)\)\)")
+site("RSW_BLK_BITS_RD", RW, r"fn sub_block_rank\(&self, sub_block: usize\)", r">> \(\(7 - left\) \* (\w+)\)\)")
+site("RSW_BLK_MASK", RW, r"fn sub_block_rank\(&self, sub_block: usize\)", r"\(\(7 - left\) \* \w+\)\) & (\w+)\)")
+
+# ---- darray/mod.rs --------------------------------------------------------------------
+DA = "src/darray/mod.rs"
+site("DA_BLOCK", DA, r"^const BLOCK_SIZE", r"const BLOCK_SIZE: usize = (\w+);")
+site("DA_SUBBLOCK", DA, r"^const SUBBLOCK_SIZE", r"const SUBBLOCK_SIZE: usize = (\w+);")
+site("DA_MAX_DIST", DA, r"^const MAX_IN_BLOCK_DISTACE", r"const MAX_IN_BLOCK_DISTACE: usize = ([^;]*);")
+
 
 def gen_consts():
     out = ["(* GENERATED by tools/gen_from_src.py from /repo sources. Do not edit. *)",
            "From Coq Require Import NArith.", "Open Scope N_scope.", ""]
     cache = {}
-    for name, file, anchor, value, doc in SITES:
+    values = {}
+    for name, file, anchor, value, doc, env in SITES:
         if file not in cache:
             cache[file] = strip_comments(read(file))
         body = fn_body(cache[file], anchor)
         m = re.search(value, body)
         if not m:
             raise GenError("site %s: value pattern not found in %s after anchor" % (name, file))
-        v = const_expr(m.group(1))
+        v = const_expr(m.group(1), {k: values[a] for k, a in env.items()})
+        values[name] = v
         out.append("Definition %s : N := %d.%s" % (name, v, ("  (* %s *)" % doc) if doc else ""))
     out.append("")
     return "\n".join(out)
